@@ -93,6 +93,7 @@ def replay_env(ctx, tab, desc, pol, gamma, clip, n_noise, pre_state, pre_count, 
     (model_rows, failures[(t, field)], model_last_value)."""
     state, count = pre_state, pre_count
     failures, model_rows = [], []
+    flags = {"terminated": 0, "truncated-only": 0, "terminal-and-truncated": 0}
     T = len(rows)
     last_value = None
     for t in range(T):
@@ -120,9 +121,22 @@ def replay_env(ctx, tab, desc, pol, gamma, clip, n_noise, pre_state, pre_count, 
             if not bad:
                 break
         bad, out = best
+        if rows[t]["done"] and not bad:
+            # which kind of episode end was it? (functional components of the model at this step)
+            for nz in range(n_noise):
+                comp = ctx.drv.call("tab_components", tab=tab, stack=desc, state=state,
+                                    action=(min(max(rows[t]["action"], clip["lo"]), clip["hi"]) if clip else rows[t]["action"]),
+                                    noise=nz)
+                if comp["terminal"] or comp["truncate"]:
+                    k = ("terminal-and-truncated" if comp["terminal"] and comp["truncate"]
+                         else "terminated" if comp["terminal"] else "truncated-only")
+                    flags[k] += 1
+                    break
         for f in bad:
             failures.append((t, f))
         model_rows.append(out["rows"][0])
         state, count = out["final_state"], out["final_policy_state"]
         last_value = out["last_value"]
+    for k, v in flags.items():
+        ctx.count("rows:" + k, v)
     return model_rows, failures, last_value
